@@ -799,8 +799,10 @@ class SymInt:
         raise Unsupported("pow")
 
     def __rpow__(self, o):
-        if o == 2:
+        if o == 2 and self.hi <= W - 4:
             return 1 << self
+        if isinstance(o, int):
+            return o ** self.concretise()
         raise Unsupported("rpow")
 
     # -- shifts
